@@ -242,6 +242,114 @@ def build_source(recipe: dict, tmp: Path) -> Tuple[Any, bool]:
     raise ValueError(f"unknown family {fam}")
 
 
+TARGET_LEAVES = ("remote_sessions", "local_login", "num_executions", "num_access", "num_file_creations", "num_file_deletions")
+
+
+def observed_components(game) -> Dict[str, dict]:
+    """host name -> {"applications": [...], "files": [(folder, file)], "folders": [...]} as some agent's observation points at them"""
+    out: Dict[str, dict] = {}
+    for _n, agent in rig.agents_with_obs(game):
+        for _p, o in rig.walk(agent.observation_manager.obs):
+            w = getattr(o, "where", None)
+            if w is None:
+                continue
+            w = list(w)
+            if len(w) < 3 or w[:2] != ["network", "nodes"]:
+                continue
+            h = out.setdefault(w[2], {"applications": [], "files": [], "folders": []})
+            t = type(o).__name__
+            if t == "ApplicationObservation":
+                h["applications"].append(w[4])
+            elif t == "FileObservation":
+                h["files"].append((w[5], w[7]))
+            elif t == "FolderObservation":
+                h["folders"].append(w[5])
+    return out
+
+
+def targeted(game, rng: Rng, ctx) -> None:
+    """Events INSIDE the tick (after `pre_timestep` has cleared the per-step counters, before the state is described), aimed at what the
+    agents observe: application executions, file accesses, file creations and deletions in the same tick, remote and local log-ins —
+    so that the counted leaves are away from their default when the observation is made."""
+    comps = observed_components(game)
+    if not comps:
+        return
+    for _ in range(rng.range(1, 3)):
+        host = rng.choice(sorted(comps))
+        node = game.simulation.network.get_node_by_hostname(host)
+        if node is None or node.operating_state.value != 1:
+            continue
+        c = comps[host]
+        # executions and accesses need an observed application / file on this host: prefer them whenever there is one
+        options = [0] * (4 if c["applications"] else 0) + [1] * (4 if c["files"] else 0) + [2, 3, 4, 4, 5, 6, 6, 7]
+        k = rng.choice(options)
+        try:
+            if k == 0 and c["applications"]:
+                name = rng.choice(c["applications"])
+                app = next((a for a in node.applications.values() if a.name == name), None)
+                if app is not None:
+                    app.num_executions += rng.choice([1, 2, 3, 4, 5, 6, 10, 11])
+                    ctx.count("targeted:application-executions")
+            elif k == 1 and c["files"]:
+                fo, fi = rng.choice(c["files"])
+                if node.file_system.get_file(fo, fi) is None:
+                    node.file_system.create_file(file_name=fi, folder_name=fo)
+                for _ in range(rng.choice([1, 2, 3, 5, 6, 10, 11])):
+                    node.file_system.access_file(fo, fi)
+                ctx.count("targeted:file-accesses")
+            elif k == 2:
+                for i in range(rng.choice([1, 2, 3, 5])):
+                    node.file_system.create_file(file_name=f"t{rng.below(10000)}.txt", folder_name=rng.choice(c["folders"] or ["root"]))
+                ctx.count("targeted:file-creations")
+            elif k == 3:
+                n = rng.choice([1, 2, 4])
+                for i in range(n):
+                    nm = f"d{rng.below(10000)}.txt"
+                    node.file_system.create_file(file_name=nm, folder_name="root")
+                    node.file_system.delete_file("root", nm)
+                ctx.count("targeted:file-creations-and-deletions-in-one-tick")
+            elif k == 4 and hasattr(node, "user_session_manager"):
+                usm = node.user_session_manager
+                if rng.chance(3, 4):
+                    for i in range(rng.range(1, 4)):
+                        usm.remote_login("admin", "admin", f"10.9.{rng.below(200)}.{1 + rng.below(200)}")
+                    ctx.count("targeted:remote-logins")
+                elif usm.remote_sessions:
+                    usm.remote_logout(next(iter(usm.remote_sessions)))
+                    ctx.count("targeted:remote-logouts")
+            elif k == 5 and hasattr(node, "user_session_manager"):
+                usm = node.user_session_manager
+                usm.local_login("admin", "admin") if rng.chance(2, 3) else usm.local_logout()
+                ctx.count("targeted:local-login/logout")
+            elif k == 6:
+                links = list(game.simulation.network.links.values())
+                if links:
+                    link = rng.choice(links)
+                    link.current_load = link.bandwidth * rng.choice([0.03, 0.12, 0.3, 0.5, 0.62, 0.77, 0.95, 1.0, 2.0])
+                    ctx.count("targeted:link-load-inside-the-tick")
+            elif k == 7 and node.network_interface:
+                nic = rng.choice(list(node.network_interface.values()))
+                sp = nic.speed
+                nic.traffic = {"icmp": {"inbound": sp * rng.choice([0, 0.02, 0.3, 0.6, 1.5]), "outbound": sp * 0.25},
+                               "tcp": {80: {"inbound": sp * rng.choice([0, 0.12, 0.5, 0.95, 10.0]), "outbound": 0}, 53: {"inbound": sp * 0.4, "outbound": sp * 0.7},
+                                       5432: {"inbound": sp * 0.03, "outbound": sp * 0.07}},
+                               "udp": {53: {"inbound": sp * rng.choice([0.2, 0.8]), "outbound": sp * 0.01}}}
+                ctx.count("targeted:nic-traffic-inside-the-tick")
+        except Exception as e:  # noqa: BLE001 - a refused event is not an observation concern
+            ctx.count(f"targeted:refused:{type(e).__name__}")
+
+
+def install_midstep(game, rng: Rng, ctx) -> None:
+    """instrumentation on THIS game object only (a new game is built at every reset): after the agents' actions, inside the tick"""
+    orig = game.apply_agent_actions
+
+    def apply_then_events():
+        orig()
+        if rng.chance(2, 3):
+            targeted(game, rng, ctx)
+    game.apply_agent_actions = apply_then_events
+
+
 class Recorder:
     """records the states `ObservationManager.update` receives, per manager, while active (instrumentation removed on exit)"""
 
@@ -318,6 +426,8 @@ def run_recipe(ctx, recipe: dict, chaos: Optional[Callable] = None) -> dict:
         as0 = env.action_space
         ctx.count("env:space-read:at-construction")
 
+        flat_len: Dict[int, int] = {}
+
         def snapshot(ep: int, step: int, env_obs, sp_ep, as_ep):
             game = env.game
             state = game.get_sim_state()
@@ -347,11 +457,17 @@ def run_recipe(ctx, recipe: dict, chaos: Optional[Callable] = None) -> dict:
                               [f.name for f in node.file_system.folders.values()]] + [[x.name for x in f.files.values()] for f in node.file_system.folders.values()]
                     dup += sum(1 for g in groups if len(g) != len(set(g)))
                 ctx.count("truth:steps-with-duplicate-live-names", 1 if dup else 0)
+            # the membership / space checks are C02's; a ground-truth run (C09) repeats them at reset, at step 1 and every 10th step only
+            full = (not want_truth) or step <= 1 or step % 10 == 0
+            nested_of: Dict[str, Any] = {}
             for name, agent in rig.agents_with_obs(game):
                 tr = tracks[f"{ep}:{name}"]
                 cur = agent.observation_manager.current_observation
-                sp = agent.observation_manager.space
-                ok_nested = bool(sp.contains(cur))
+                ok_nested = True
+                if full:
+                    sp = agent.observation_manager.space
+                    nested_of[name] = sp
+                    ok_nested = bool(sp.contains(cur))
                 tr["lines"].append(("spec " + " ".join(ttoks)) if want_truth else ("obs " + " ".join(toks)))
                 ccur = rig.canon(cur)
                 tr["impl"].append((ccur, ok_nested, fb))
@@ -359,10 +475,16 @@ def run_recipe(ctx, recipe: dict, chaos: Optional[Callable] = None) -> dict:
                     for (pth, val), (_, dv) in zip(leaf_paths(ccur), leaf_paths(tr["default"])):
                         if val != dv:
                             tr["ever"].add(pth)
-                ctx.count("env:nested-in-space" if ok_nested else "env:nested-NOT-in-space")
+                            leaf = pth.rsplit("/", 1)[-1].split(":", 1)[-1]
+                            if leaf in TARGET_LEAVES:
+                                ctx.count("leaf-nondefault-observations:" + leaf)
+                if full:
+                    ctx.count("env:nested-in-space" if ok_nested else "env:nested-NOT-in-space")
                 if not ok_nested:
                     bad = rig.leaves_out_of_space(ccur, rig.canon_space(sp))
                     oracle_fail.append({"scenario": label, "agent": name, "episode": ep, "step": step, "bad": bad[:4]})
+            if not full:
+                return sp_ep, as_ep
             # what the gymnasium API handed to the RL agent, against the space declared NOW, after this episode's reset, at construction
             a = env.agent
             sp_now = env.observation_space
@@ -388,13 +510,15 @@ def run_recipe(ctx, recipe: dict, chaos: Optional[Callable] = None) -> dict:
                 if step == 0 and as_now != as0:
                     fail("<api>", ep, step, "action_space differs from the one read at construction (constant scenario)")
             if a.flatten_obs:
-                nested_sp = a.observation_manager.space
+                nested_sp = nested_of.get(env._agent_name) or a.observation_manager.space
                 again = gymnasium.spaces.flatten(nested_sp, a.observation_manager.current_observation)
                 if not np.array_equal(again, env_obs):
                     fail("<api>", ep, step, "flatten(obs) differs from returned array")
-                want_len = int(gymnasium.spaces.flatten_space(nested_sp).shape[0])
+                if step == 0:
+                    flat_len[ep] = int(gymnasium.spaces.flatten_space(nested_sp).shape[0])
+                want_len = flat_len.get(ep, len(env_obs))
                 if len(env_obs) != want_len or tuple(sp_now.shape) != (want_len,):
-                    fail("<api>", ep, step, f"flattened observation has {len(env_obs)} entries, flatten_space(current nested space) {want_len}, "
+                    fail("<api>", ep, step, f"flattened observation has {len(env_obs)} entries, flatten_space(nested space of this episode) {want_len}, "
                                             f"env.observation_space declares shape {tuple(sp_now.shape)}")
                 tr0 = tracks.get(f"{ep}:{env._agent_name}")
                 if tr0 is not None:
@@ -444,6 +568,8 @@ def run_recipe(ctx, recipe: dict, chaos: Optional[Callable] = None) -> dict:
                 if tr["flatten"]:
                     tr["lines"].append("flatdim")
                     tr["impl"].append(("flatdim", int(gymnasium.spaces.flatten_space(agent.observation_manager.space).shape[0])))
+            if recipe.get("targeted"):
+                install_midstep(env.game, rng, ctx)
             n = int(env.action_space.n)
             burst = 0
             for t in range(steps):
